@@ -3,6 +3,7 @@
 //!   sqlverif replay <FILE> [--out FILE]
 mod cal;
 mod core;
+mod digest;
 mod f64x;
 mod pools;
 mod props;
@@ -15,6 +16,16 @@ use std::time::Instant;
 
 fn main() {
     let args: Vec<String> = std::env::args().collect();
+    if args.len() >= 3 && args[1] == "digest" {
+        // feature-independence monitor: same workload as the default-feature twin crate (harness-nofeat)
+        let r = std::panic::catch_unwind(|| digest::digest(&args[2]));
+        match r {
+            Ok(Some((d, n))) => println!("{{\"property\": \"{}\", \"digest\": \"{:016x}\", \"values_folded\": {}}}", args[2], d, n),
+            Ok(None) => println!("{{\"property\": \"{}\", \"digest\": null}}", args[2]),
+            Err(_) => println!("{{\"property\": \"{}\", \"digest\": \"panicked\", \"values_folded\": 0}}", args[2]),
+        }
+        return;
+    }
     if args.len() < 3 {
         eprintln!("usage: sqlverif run <Cnn> --tier T --seed N --out FILE | sqlverif replay FILE");
         std::process::exit(64);
